@@ -106,6 +106,12 @@ def run_bucket(seq, p, drop, via_copy=False):
         return ex
 
     ds = lazy_dataset.new([{'id': i, 'len': n} for i, n in enumerate(seq)]).map(spy)
+    if p.get('unsized'):
+        ds = ds.filter(lambda e: True)  # a source that cannot tell its length (a lazy filter upstream)
+    # the flag as callers spell it: bool, int, None, numpy bool
+    import numpy as np
+    k = p.get('flag_kind', 0)
+    drop = ([True, 1, np.True_] if drop else [False, 0, None, np.False_])[k % (3 if drop else 4)]
     if via_copy:
         ds = make_bucket_ds(ds, p, drop).copy()
         out, at = [], []
@@ -204,9 +210,15 @@ def nontrivial(seq, p, fired, nb, max_open):
 
 
 def run_case(case):
-    if 'word' in case:
-        check_two(tuple(case['lengths']), case['params'], case['word'])
-    return check(tuple(case['lengths']), case['params'])
+    try:
+        if 'word' in case:
+            check_two(tuple(case['lengths']), case['params'], case['word'])
+        return check(tuple(case['lengths']), case['params'])
+    except Violation:
+        raise
+    except Exception as e:
+        raise Violation('bucket-iteration-raised', f'lengths={case["lengths"]} params={case["params"]}\n'
+                                                   f'{type(e).__name__}: {str(e)[:300]}')
 
 
 def replay(case):
@@ -231,6 +243,10 @@ def st_case(draw):
         'sort': draw(st.booleans()),
         'reverse': draw(st.booleans()),
     }
+    if draw(st.integers(0, 3)) == 0:
+        p['unsized'] = True
+    if draw(st.integers(0, 2)) == 0:
+        p['flag_kind'] = draw(st.integers(1, 3))
     case = {'lengths': seq, 'params': p}
     if draw(st.integers(0, 3)) == 0:
         case['word'] = draw(st.lists(st.integers(0, 1), min_size=0, max_size=20))
